@@ -258,6 +258,7 @@ func persistSystems(nsubs int) []*PersistSystem {
 		NewPersistSystem(G4_29, "lease", 1, nsubs),
 		NewPersistSystem(G4_29hi, "lease", 2, nsubs),
 		NewPersistSystem(G4_28, "session", 0, 4), NewPersistSystem(G4_28, "lease", 1, 4), NewPersistSystem(G6_57, "session", 0, 4),
+		NewPersistSystem(G4_30, "session", 0, nsubs).WithLineIDs(), NewPersistSystem(G4_29, "lease", 1, nsubs).WithLineIDs(),
 	}
 }
 
